@@ -88,7 +88,7 @@ async fn build_env<'a>(pool: &'a KeyPool, seed: u64, cs: bool, thorough: bool) -
     let role0 = ATargets { version: 1, expires: 7 * DAY, entries: role_entries, deleg: None, msg: msgs.next(), sigs: valid_sigs(&[11]) };
     let top = ATargets {
         version: 1, expires: 7 * DAY, entries: top_entries,
-        deleg: Some(ADeleg { table: vec![11], roles: vec![ADRole { name: 0, ids: vec![11], thr: 1, patterns: vec!["*".into()] }] }),
+        deleg: Some(ADeleg { table: vec![11], roles: vec![ADRole { name: 0, ids: vec![11], thr: 1, patterns: vec!["*".into()], hash_prefixes: vec![] }] }),
         msg: msgs.next(), sigs: valid_sigs(&[10]),
     };
     let online = Online { ts_sigs: valid_sigs(&[8]), snap_sigs: valid_sigs(&[9]), ts_expires: DAY, snap_expires: 3 * DAY };
